@@ -173,7 +173,7 @@ pub fn representable(id: usize, v: &Val, m: &Beatmap) -> bool {
         (12, Val::Int(n)) => *n >= 0 && i32_ok(*n),
         (13, Val::Ints(l)) => l.iter().all(|b| i32_ok(*b as i64)),
         (18..=25, Val::Str(s)) => plain_text(s),
-        // ids: positive (the property's wording); lost today (D16)
+        // ids: positive (the property's wording)
         (26 | 27, Val::Int(n)) => *n > 0 && i32_ok(*n),
         (0 | 3 | 15 | 16, Val::Int(n)) => i32_ok(*n),
         (4 | 28..=31, Val::F32(x)) => f32_ok(*x),
@@ -445,6 +445,9 @@ pub fn edit_case(text: &str, id: usize, v: &Val, origin: &str, out: &mut Out) {
     if c04::has_slider(&m) && !c04::SLIDERS_IN_MODEL {
         return;
     }
+    if m.hit_objects.iter().any(|h| matches!(&h.kind, HitObjectKind::Slider(s) if s.repeat_count > 60)) {
+        return;
+    }
     let before = c02::simple_fields(&m);
     apply(&mut m, id, v);
     let changed = c02::simple_fields(&m) != before;
@@ -526,8 +529,7 @@ pub fn oracle(base: &Base, id: usize, v: &Val, origin: &str, out: &mut Out) {
         out.oracle_checks += 1;
         if *n == name {
             if *g != want[k].1 {
-                let cls = if id == 26 || id == 27 { "D16" } else { "" };
-                out.fail(cls, &desc, &format!("edited field {} was set to {} and reads back as {}", n, want[k].1, g));
+                out.fail("", &desc, &format!("edited field {} was set to {} and reads back as {}", n, want[k].1, g));
             }
         } else {
             // special style is carried in mania only: a mode edit legitimately changes whether it is
